@@ -1478,7 +1478,8 @@ fn family_case(b: &FamilyBlock, mut k: u64, seed: u64) -> Case {
 const INT_POOL: [i64; 8] = [0, 1, -1, 2, 42, 1000, -255, 9223372036854775807];
 
 fn bytes_pool() -> Vec<Vec<u8>> {
-    vec![vec![], vec![0], vec![0, 0xff], vec![0xff], vec![0xde, 0xad, 0xbe, 0xef]]
+    // several byte strings that are not valid UTF-8 and look alike under a lossy text conversion
+    vec![vec![], vec![0], vec![0, 0xff], vec![0xff], vec![0xfe], vec![0x80], vec![0xc0], vec![0, 0xfe], vec![0xde, 0xad, 0xbe, 0xef]]
 }
 
 fn random_sig(rng: &mut Prng) -> (Sig, Ty) {
